@@ -12,12 +12,10 @@ import GolibsVerif.Lemmas.C20Inv
 
 namespace GolibsVerif.C20
 
-/-! ## The statement lists the models were written against are those of the source -/
+/-! ## The normal forms the models were written against are those of the source -/
 
 theorem skel_httputil_wrap : Gen.C20Skel.httputilWrap = Expected.httputilWrap := by decide
-theorem skel_logmw_wrap : Gen.C20Skel.logmwWrap = Expected.logmwWrap := by decide
-theorem skel_log_finished : Gen.C20Skel.logFinished = Expected.logFinished := by decide
-theorem skel_attrs_slice_ptr : Gen.C20Skel.attrsSlicePtr = Expected.attrsSlicePtr := by decide
+theorem skel_logmw_wrap : Gen.C20Skel.logmwWrap = Expected.logmwWrap := by decide +kernel
 theorem skel_new_log_middleware : Gen.C20Skel.newLogMiddleware = Expected.newLogMiddleware := by decide +kernel
 theorem skel_copy_request_to : Gen.C20Skel.copyRequestTo = Expected.copyRequestTo := by decide
 
@@ -32,14 +30,26 @@ theorem skel_pool :
     Gen.C20Skel.newPool = Expected.newPool ∧ Gen.C20Skel.newSlicePool = Expected.newSlicePool ∧
     Gen.C20Skel.poolGet = Expected.poolGet ∧ Gen.C20Skel.poolPut = Expected.poolPut := by decide
 
-/-- The order in which the transition system performs the statements of the closure `f`
-(`pcOrder`) is Go's execution order of the regenerated statement list: statements in
-sequence, then the deferred calls last-in-first-out — in particular `logFinished` runs
-before `rwPool.Put`, which runs before `reqPool.Put`, which runs before `attrPool.Put` —
-and the program counters along it never go back. -/
+/-- The order in which the transition system performs the events of the closure returned
+by `LogMiddleware.Wrap` (`pcOrder`) is Go's execution order of the regenerated normal form:
+the events in sequence — every pool `Get` immediately before the first use of its object,
+the attribute slice filled before the logger is derived from it — then the deferred calls
+last-in-first-out: the `finished` record (which reads the recorder's code) runs before
+`rwPool.Put`, which runs before `reqPool.Put`, which runs before `attrPool.Put`; and the
+program counters along it never go back. -/
 theorem skel_defer_order :
-    linearize (closureBody Gen.C20Skel.logmwWrap) = pcOrder.map (·.1) ∧
+    normalPath (closureBody Gen.C20Skel.logmwWrap) = pcOrder.map (·.1) ∧
     (pcOrder.map (·.2.rank)).Pairwise (· ≤ ·) := by decide +kernel
+
+/-- If the wrapped handler panics, exactly the deferred calls of the normal end run, in
+the same order (the transition `serve → logFinished → putRw → putReq → putAttr` of
+`stepHandler … .panic`), and nothing has been returned to a pool before the handler runs. -/
+theorem skel_panic_path :
+    exitAt serveLine (closureBody Gen.C20Skel.logmwWrap) =
+      ((pcOrder.filter (fun p => p.2.rank ≥ PC.logFinished.rank)).map (·.1)) ∧
+    (normalPath ((closureBody Gen.C20Skel.logmwWrap).takeWhile (· ≠ serveLine))).all
+      (fun l => !l.startsWith "put ") = true := by
+  decide +kernel
 
 /-! ## Part 1 — `httputil.Wrap` -/
 
